@@ -1353,22 +1353,30 @@ pub fn check(tier: Tier) -> ! {
     if capped {
         res.cov("cap", format!("wall-clock budget of {} s hit; histories not run: {}", budget.as_secs(), jobs.len() as u64 - evaluations));
     }
-    // samples
+    // samples: the longest judged histories available, alternating conforming / violating last runs
     let mut shown = 0;
-    for r in results.iter().flatten() {
-        if shown >= 4 {
-            break;
-        }
-        if r.runs.len() == 3 && r.judgements.len() == 3 && r.judgements[2].judged && (shown % 2 == 0) == r.judgements[2].syms.is_empty() {
+    for want_len in (1..=4).rev() {
+        for r in results.iter().flatten() {
+            if shown >= 4 {
+                break;
+            }
+            let n = r.runs.len();
+            if n != want_len || r.judgements.len() != n || !r.judgements[n - 1].judged {
+                continue;
+            }
+            if (shown % 2 == 0) != r.judgements[n - 1].syms.is_empty() {
+                continue;
+            }
             if let Some(o) = &r.obs {
                 res.sample(json!({
                     "history": shape_plain(&r.runs),
                     "returned": o.runs.iter().map(|x| x.outcome.short()).collect::<Vec<_>>(),
                     "schedule_lengths": o.runs.iter().map(|x| x.sched_len).collect::<Vec<_>>(),
                     "schedules_on_stderr_per_run": r.stderr_schedules,
-                    "files_after_last_run": o.runs[2].dirs_after.iter().map(|m| m.keys().cloned().collect::<Vec<_>>()).collect::<Vec<_>>(),
-                    "symptoms_last_run": r.judgements[2].syms.iter().map(|s| s.class()).collect::<Vec<_>>(),
-                    "replays_last_run": r.judgements[2].replays.iter().map(|x| x.short()).collect::<Vec<_>>(),
+                    "files_after_last_run": o.runs[n - 1].dirs_after.iter().map(|m| m.keys().cloned().collect::<Vec<_>>()).collect::<Vec<_>>(),
+                    "symptoms_last_run": r.judgements[n - 1].syms.iter().map(|s| s.class()).collect::<Vec<_>>(),
+                    "emitted_last_run": r.judgements[n - 1].emitted.iter().map(|e| e.content.clone()).collect::<Vec<_>>(),
+                    "replays_last_run": r.judgements[n - 1].replays.iter().map(|x| x.short()).collect::<Vec<_>>(),
                 }));
                 shown += 1;
             }
